@@ -8,7 +8,8 @@
 (*   C04  the public AST = Prec!TreeOf(tokens); the parenthesised spelling *)
 (*        has the same AST and the same search results                     *)
 (*   C12  a compile failure is located truthfully ("coords")               *)
-(* Expected(r).why names the clause that failed: "accept", "errclass",     *)
+(* Expected(r).why names the clause that failed: "accept", "reject",       *)
+(* "errclass",                                                             *)
 (* "tree", "paren", "results", "compile" so that the check of each         *)
 (* property reports its own clauses.                                       *)
 (***************************************************************************)
@@ -45,7 +46,7 @@ Why(r) ==
   LET x == L0(r) IN
   IF ~x.dom THEN "none"
   ELSE IF r.parse.errclass = "panic" THEN "accept"
-  ELSE IF r.parse.ok # x.acc THEN "accept"
+  ELSE IF r.parse.ok # x.acc THEN (IF x.acc THEN "reject" ELSE "accept")        \* "reject": an expression of the language is refused (no tree at all: C03 and C04)
   ELSE IF ~r.parse.ok /\ r.parse.errclass # "parse" THEN "errclass"
   ELSE IF ~r.parse.ok /\ ~CoordsOk(r) THEN "coords"
   ELSE IF ~r.parse.compile_same THEN "compile"
